@@ -99,6 +99,18 @@ PROPS["C14"] = {
     "level_note": LEVEL_NOTE_GBN,
 }
 
+PROPS["C20"] = {
+    "pkgs": ["gbn"],
+    "level": "exploration",
+    "quick_budget": 50, "thorough_budget": 1200,
+    "rule": "model-sequential: histories of 20..220 events over {Sent(DATA seq), Resent(DATA seq), Received(ACK seq), Sent(SYN, resent?), Received(SYN|SYNACK), packets without timing information} on 2..7 reused sequence numbers, separated by virtual delays of 0, milliseconds, seconds, 0..5 x the current timeout, or the boost interval +-1 ms; multipliers 1..20, update frequencies 1..300, boost 1..300 %, static mode with arbitrary values; after every event GetResendTimeout/GetHandshakeTimeout are compared with a reference model written from the property statement. invariants-concurrent: three tasks (send loop, receive loop, reader/setter) drive one manager; floor, static-constant and no-deadlock invariants." + SIG_RULE,
+    "assumptions": ["the reference model encodes: timeout = max(1 s, multiplier x last eligible RTT) x (1 + boost x k), k incremented by a DATA resend at most once per base-timeout interval and reset by an eligible sample, a sample is eligible only if its transmission was never followed by a resend of the same number, recomputation every `frequency` eligible samples (and on the first one)", "comparison tolerance 1e-5 relative + 1 us (float32 arithmetic in the boost)"],
+    "components": {"gbn/timeout_manager.go (TimeoutManager, TimeoutBooster)": "real code, instrumented", "clock": "virtual (synctest bubble)", "rest of gbn": "not involved"},
+    "expected_probes": ["c20.sample-taken", "c20.ends-boosted"],
+    "level_text": EXPL_TEXT + " The oracle is refinement against an executable reference model, event by event.",
+    "level_note": LEVEL_NOTE_GBN,
+}
+
 # Properties that are pure functions of their input: no schedule, clock, fault
 # or interleaving enters them, so deterministic simulation has nothing to decide.
 NOT_APPLICABLE = {
